@@ -262,6 +262,139 @@ def _judge(case: dict, r: dict) -> Outcome:
 _LAYOUT: dict = {}
 
 
+# ----------------------------------------------------------------------------------------------
+# layer "concurrent-close": aclose() while another task is parked in recv(); the peer then answers with close_notify,
+# just drops the connection, or stays silent
+
+
+async def _concurrent_close_session(case: dict) -> dict:
+    backend, mem, peer, wire = tlsharness.new_session(case)
+    wire.auto_close_reply = case["peer_reaction"] == "close_notify"
+    conductor = asyncio.create_task(wire.conductor())
+    loop = asyncio.get_running_loop()
+    records = [tlspeer.payload("peer", i, n) for i, n in enumerate(case["records"])]
+    expected = b"".join(records)
+    res: dict[str, Any] = {"reader_end": None, "reader_error": None, "received": b""}
+    try:
+        tls = await tlsharness.wrap_sut(case, mem, shutdown_timeout=case["shutdown_timeout"])
+        for rec in records:
+            peer.write(rec)
+        wire.kick()
+        received = bytearray()
+        parked = asyncio.Event()
+
+        async def reader() -> None:
+            while True:
+                if len(received) >= len(expected):
+                    parked.set()
+                try:
+                    data = await tls.recv(65536)
+                except OSError as exc:
+                    res["reader_end"], res["reader_error"] = "error", type(exc).__name__
+                    return
+                if not data:
+                    res["reader_end"] = "eof"
+                    return
+                received.extend(data)
+
+        rt = asyncio.create_task(reader())
+        await parked.wait()
+        for _ in range(case["park_ticks"]):
+            await asyncio.sleep(0)
+        t_close = loop.time()
+        seen_at: dict[str, float | None] = {"t": None}
+
+        async def watch_peer() -> None:
+            await wire.wait_until(lambda: peer.zero_return or peer.error is not None)
+            seen_at["t"] = loop.time()
+
+        watcher = asyncio.create_task(watch_peer())
+        if case["peer_reaction"] == "drop":
+            # the peer reacts to our close_notify by dropping the TCP connection without sending its own
+            async def drop_when_seen() -> None:
+                await wire.wait_until(lambda: peer.zero_return or peer.error is not None)
+                await asyncio.sleep(case["drop_delay"])
+                if not mem.closed and not mem.eof:
+                    mem.feed_eof()
+
+            dropper = asyncio.create_task(drop_when_seen())
+        else:
+            dropper = None
+        await tls.aclose()
+        res["close_duration"] = loop.time() - t_close
+        await asyncio.sleep(0)
+        if not rt.done():
+            # the reader of a closed transport must end (any way) once the close finished
+            for _ in range(20):
+                await asyncio.sleep(0)
+        res["reader_done"] = rt.done()
+        if not rt.done():
+            rt.cancel()
+        await asyncio.gather(rt, return_exceptions=True)
+        for t in (watcher, dropper):
+            if t is not None and not t.done():
+                t.cancel()
+        await asyncio.gather(*(t for t in (watcher, dropper) if t is not None), return_exceptions=True)
+        res["peer_saw_close_notify_after"] = None if seen_at["t"] is None else seen_at["t"] - t_close
+        res["received"] = bytes(received)
+        res["closed"] = mem.closed
+    finally:
+        wire.stop = True
+        wire.kick()
+        conductor.cancel()
+        await asyncio.gather(conductor, return_exceptions=True)
+    res["expected"] = expected
+    res["peer_zero_return"] = peer.zero_return
+    return res
+
+
+def run_concurrent_close_case(case: dict) -> Outcome:
+    try:
+        r = run_virtual(_concurrent_close_session, case)
+    except Deadlock as exc:
+        raise Violation("deadlock", f"close with a parked reader did not end: {exc}") from exc
+    detail = {"peer_reaction": case["peer_reaction"], "reader_end": r["reader_end"], "reader_error": r["reader_error"]}
+    if r["received"] != r["expected"]:
+        raise Violation("data-mismatch", f"reader got {len(r['received'])} of {len(r['expected'])} bytes before the close", **detail)
+    if not r["closed"]:
+        raise Violation("not-closed", "wrapped transport not closed after aclose()", **detail)
+    # closing the transport sends a close notification: the peer must see it well before the shutdown timeout gives up
+    seen = r["peer_saw_close_notify_after"]
+    if seen is None or seen >= case["shutdown_timeout"] - 1e-6:
+        raise Violation(
+            "no-close-notify",
+            f"aclose() with a reader parked in recv(): the peer did not receive close_notify before the shutdown timeout ({case['shutdown_timeout']}s); seen after {seen}",
+            **detail,
+        )
+    if case["peer_reaction"] == "drop" and r["reader_end"] == "eof":
+        raise Violation(
+            "truncation-as-eof",
+            "the peer dropped the connection without close_notify while a reader was parked and a close was in progress: the reader got a clean EOF",
+            **detail,
+        )
+    if case["peer_reaction"] == "close_notify" and r["reader_end"] == "error" and r["reader_error"] not in ("ConnectionAbortedError", "OSError"):
+        pass  # the reader may see EOF or a closed-transport error; neither is prescribed
+    return Outcome(nontrivial=True, classes=(f"reaction-{case['peer_reaction']}", f"reader-{r['reader_end']}", f"tls-{case['version']}"))
+
+
+@st.composite
+def st_concurrent_close_case(draw: st.DrawFn, tier: str) -> dict:
+    return {
+        "sut_role": draw(st.sampled_from(["client", "server"])),
+        "version": draw(st.sampled_from(["1.2", "1.3"])),
+        "standard_compatible": True,
+        "records": draw(st.lists(st.sampled_from([1, 100, 5000]), min_size=0, max_size=2)),
+        "peer_reaction": draw(st.sampled_from(["close_notify", "drop", "drop", "silent"])),
+        "drop_delay": draw(st.sampled_from([0.0, 0.01, 1.0])),
+        "shutdown_timeout": draw(st.sampled_from([5.0, 30.0])),
+        "park_ticks": draw(st.integers(0, 5)),
+        "frag_to_sut": draw(st.sampled_from([[1 << 20], [7], [100]])),
+        "frag_to_peer": draw(st.sampled_from([[1 << 20], [11]])),
+        "delays": draw(st.sampled_from([[0.0], [0.0, 0.01]])),
+        "mem_script": {"send_yield": draw(st.lists(st.integers(0, 2), min_size=1, max_size=3))},
+    }
+
+
 def _base_case(draw: st.DrawFn) -> dict:
     return {
         "sut_role": draw(st.sampled_from(["client", "server"])),
@@ -359,6 +492,7 @@ CHECK = Check(
         Layer("async", st_async_case, run_async_case, {"quick": 1200, "thorough": 4000}),
         Layer("sync-enum", None, run_sync_case, {"quick": 0, "thorough": 0}, enumerate=enum_offsets),
         Layer("sync", st_async_case, run_sync_case, {"quick": 600, "thorough": 3000}),
+        Layer("concurrent-close", st_concurrent_close_case, run_concurrent_close_case, {"quick": 200, "thorough": 1500}),
     ],
     assumptions=[
         "peer is the stdlib ssl.SSLObject; the live stream differs from run to run in content but not in record structure except for ECDSA signature length (so enumerated offsets beyond the end mean 'not truncated', decided per run from the live stream)",
